@@ -31,6 +31,7 @@ func vC16RouteReq(tag, method, path, host string, withFwd bool) *http.Request {
 	return middlewareapi.AddRequestScope(req, &middlewareapi.RequestScope{ReverseProxy: false})
 }
 
+// bypass decision, API-path decision, trusted-IP decision and OAuth redirect URI are identical with and without forwarding headers (reverse-proxy off, also for requests without Host)
 // verif: unwind=6 strlen=10
 func vh_C16_routes() {
 	opts := &options.Options{SkipAuthRoutes: []string{"GET=^/public/", "^/open$"}, APIRoutes: []string{"^/api/"}}
